@@ -42,7 +42,7 @@ import (
 const prop = "C07"
 
 func TestSim(t *testing.T) {
-	kernel.Main(t, kernel.Harness{Name: "c07", Horizon: 10 * time.Minute, Body: body})
+	kernel.Main(t, kernel.Harness{Name: "c07", Horizon: 10 * time.Minute, Body: body, PreemptMax: 12 * time.Millisecond})
 }
 
 // ---- data -----------------------------------------------------------------------------------
@@ -142,6 +142,8 @@ type callRec struct {
 	entries  []*entryOp
 	inv, ret int64
 	invT     time.Duration
+	retT     time.Duration
+	straddle bool // a store of the expiring duty invoked before the deadline that returned after it (descheduled client)
 	returned bool
 	err      string // "", "mismatch", "other:…"
 	dropped  bool   // invoked after the duty's deadline: the statement says it is dropped
@@ -183,15 +185,16 @@ type harn struct {
 	mu  sync.Mutex
 	seq int64
 
-	datums   []*datum // index id-1
-	calls    []*callRec
-	trigs    []*trigEv
-	orphanT  int
-	ints     []*intEv
-	pkIdx    map[core.PubKey]int
-	expiring core.Duty
-	hasExp   bool
-	expireAt time.Duration
+	datums    []*datum // index id-1
+	calls     []*callRec
+	trigs     []*trigEv
+	orphanT   int
+	ints      []*intEv
+	pkIdx     map[core.PubKey]int
+	expiring  core.Duty
+	hasExp    bool
+	straddled bool
+	expireAt  time.Duration
 
 	// eviction sub-scenario (see body): the key of the oldest filler duty, which other shares also sign
 	hasEvict bool
@@ -519,14 +522,27 @@ func body(c *kernel.Ctx) {
 		cr.inv = h.stamp()
 		verifrt.Note("c%d call#%d store-%s %s share=%d {%s} dropped=%v", cl, cr.id, kind, simdata.Desc(p.duty), p.share, strings.Join(desc, " "), cr.dropped)
 		var err error
+		// a storing client may be descheduled between any two steps of the call while time passes (fault kind
+		// goroutine-descheduled): a store can then be in flight when its duty expires and is trimmed
+		verifrt.SetPreemptible(true)
 		if p.internal {
 			err = db.StoreInternal(cctx, p.duty, set)
 		} else {
 			err = db.StoreExternal(cctx, p.duty, set)
 		}
+		verifrt.SetPreemptible(false)
 		cr.err = classify(err)
 		cr.ret = h.stamp()
+		cr.retT = verifrt.Now()
 		cr.returned = true
+		if h.hasExp && p.duty == h.expiring && !cr.dropped && cr.retT >= h.expireAt {
+			// in flight at the deadline: whether its entries were stored before or after the trim, or dropped,
+			// is not stated; the reference model is not applied to the expiring duty's keys in such a run. What
+			// stays checked for them: no store invoked after the deadline triggers or fails, trigger content.
+			cr.straddle = true
+			h.straddled = true
+			verifrt.Probe("store-in-flight-at-deadline")
+		}
 		verifrt.Note("c%d call#%d -> err=%q", cl, cr.id, cr.err)
 	}
 
@@ -812,6 +828,9 @@ func (h *harn) check() {
 		}
 		if h.hasEvict && k == h.evictKey {
 			continue // eviction is outside the reference model: checked above and by the trigger oracles
+		}
+		if h.straddled && h.hasExp && k.duty == h.expiring {
+			continue // a store was in flight at the deadline (see the client loop)
 		}
 		if h.linearizable(ops, 0) {
 			continue
